@@ -242,6 +242,131 @@ def run(ctx):
     ctx.attempt(_r1)
     ctx.attempt(_r2)
     ctx.attempt(_r3)
+    ctx.attempt(_r4)
+    ctx.attempt(_r5)
+
+
+def _r5(ctx):
+    """Monotonicity in the load level needs the early-failure branch and the regular branch of the lifetime to switch at the
+    end of the hysteresis table and both lifetime properties to agree (analysis shared with R-C09-6)."""
+    ctx.rule("R-C10-5", floor=8, what="lifetime branches switch at the end of the table the failure position refers to (shared with R-C09-6)")
+    from .c09 import _accumulation_core
+    _accumulation_core(ctx)
+
+
+def _layout(e, env):
+    """Axis order of an array expression; ('flat', axes) after flattening.  None: unknown."""
+    if isinstance(e, ast.Name):
+        return env.get(e.id)
+    if is_self_attr(e):
+        return env.get("self." + e.attr)
+    if isinstance(e, ast.Constant) and isinstance(e.value, (int, float)):
+        return ()
+    if isinstance(e, ast.Attribute) and e.attr in ("values", "T"):
+        b = _layout(e.value, env)
+        return b if e.attr == "values" or b is None else tuple(reversed(b))
+    if isinstance(e, ast.BinOp) and isinstance(e.op, (ast.Mult, ast.Add)):
+        a, b = _layout(e.left, env), _layout(e.right, env)
+        if a is None or b is None or (a and a[0] == "flat") or (b and b[0] == "flat"):
+            return None
+        n = max(len(a), len(b))
+        a, b = ("1",) * (n - len(a)) + tuple(a), ("1",) * (n - len(b)) + tuple(b)
+        out = []
+        for x, y in zip(a, b):
+            if x == "1":
+                out.append(y)
+            elif y == "1" or x == y:
+                out.append(x)
+            else:
+                return None
+        return tuple(out)
+    if isinstance(e, ast.Call):
+        fn = call_name(e) or ""
+        f = e.func
+        if isinstance(f, ast.Attribute) and f.attr in ("to_numpy", "copy", "astype", "squeeze") and fn not in ("np.copy",):
+            return _layout(f.value, env)
+        if isinstance(f, ast.Attribute) and f.attr in ("flatten", "ravel") and not fn.startswith("np."):
+            b = _layout(f.value, env)
+            return None if b is None else ("flat", tuple(x for x in b if x != "1"))
+        if fn in ("np.asarray", "np.array") and e.args:
+            a = e.args[0]
+            if isinstance(a, (ast.List, ast.Tuple)) and len(a.elts) == 1:
+                b = _layout(a.elts[0], env)
+                return None if b is None else ("1",) + tuple(b)
+            return _layout(a, env)
+        if fn in ("np.ones", "np.full", "np.zeros", "np.empty") and e.args and isinstance(e.args[0], (ast.List, ast.Tuple)):
+            dims = []
+            for d in e.args[0].elts:
+                if const_value(d) == 1:
+                    dims.append("1")
+                elif isinstance(d, ast.Name) and d.id in env and isinstance(env[d.id], str):
+                    dims.append(env[d.id])
+                else:
+                    return None
+            return tuple(dims)
+        if fn in ("np.tile", "np.repeat") and len(e.args) == 2 and not e.keywords:
+            b = _layout(e.args[0], env)
+            n = e.args[1]
+            cnt = env.get(n.id) if isinstance(n, ast.Name) else None
+            if b is None or len(b) != 1 or not isinstance(cnt, str):
+                return None
+            return ("flat", (cnt, b[0])) if fn == "np.tile" else ("flat", (b[0], cnt))
+        if fn in ("np.outer",) and len(e.args) == 2:
+            a, b = _layout(e.args[0], env), _layout(e.args[1], env)
+            if a is not None and b is not None and len(a) == 1 and len(b) == 1:
+                return (a[0], b[0])
+    return None
+
+
+def _r4(ctx):
+    """Per-point curve values spread over the hysteresis table must be laid out like the table's index
+    (hysteresis_index outermost, assessment_point_index fastest)."""
+    prog = ctx.prog
+    ctx.rule("R-C10-4", floor=2, what="per-point values spread over the hystereses follow the index layout (hysteresis-major, point fastest)")
+    f = prog.func("pylife.strength.fkm_nonlinear.damage_calculator:DamageCalculatorPRAM._initialize_P_RAM_Z_index")
+    # level order of the table index as asserted by the calculator
+    init = prog.func("pylife.strength.fkm_nonlinear.damage_calculator:DamageCalculatorPRAM._initialize_collective_index")
+    order = None
+    for st in walk_stmts(init.node.body):
+        if isinstance(st, ast.Assert) and isinstance(st.test, ast.Compare) and "index.names" in norm_text(st.test.left):
+            v = st.test.comparators[0]
+            if isinstance(v, ast.List):
+                order = [const_value(x) for x in v.elts]
+    if order is None:
+        raise AnalysisError("asserted level order of the collective index not found")
+    axis = {"hysteresis_index": "H", "assessment_point_index": "P"}
+    want = tuple(axis.get(x) for x in order)
+    ctx.holds(init, init.node, "table index levels are %s" % order)
+    env = {}
+    stores = []
+    for st in walk_stmts(f.node.body):
+        if isinstance(st, ast.Assign) and isinstance(st.targets[0], ast.Name) and isinstance(st.value, ast.Call) and \
+                call_name(st.value) == "len":
+            t = norm_text(st.value.args[0])
+            for lvl, ax in axis.items():
+                if "get_level_values('%s')" % lvl in t.replace('"', "'") and "unique" in t:
+                    env[st.targets[0].id] = ax
+        if isinstance(st, ast.Assign) and is_self_attr(st.targets[0]) and isinstance(st.value, ast.Call) and \
+                call_name(st.value) == "pd.Series":
+            stores.append(st)
+    if len(stores) != 1:
+        raise AnalysisError("_initialize_P_RAM_Z_index: the re-indexed Series not found")
+    st = stores[0]
+    attr = st.targets[0].attr
+    env["self." + attr] = ("P",)          # one value per assessment point (guarded by the isinstance tests above it)
+    data = next((k.value for k in st.value.keywords if k.arg == "data"), st.value.args[0] if st.value.args else None)
+    idx = next((k.value for k in st.value.keywords if k.arg == "index"), None)
+    if data is None or idx is None or norm_text(idx) != "self._collective.index":
+        raise AnalysisError("_initialize_P_RAM_Z_index: data/index of the Series not found")
+    lay = _layout(data, env)
+    if lay is None:
+        raise AnalysisError("_initialize_P_RAM_Z_index: layout of %s unknown" % norm_text(data))
+    if lay == ("flat", want):
+        ctx.holds(f, st, "%s spread as %s: axes %s, matching the index layout" % (attr, norm_text(data), "x".join(want)))
+    else:
+        ctx.violated(f, st, "the per-point values %s are spread over the table as %s with axis order %s, but the table index is "
+                     "laid out %s (point index fastest): every hysteresis row is evaluated against another point's curve" %
+                     (attr, norm_text(data), lay, "x".join(want)), text="P_RAM_Z layout")
 
 
 def _r1(ctx):
@@ -444,6 +569,37 @@ LD = "src/pylife/strength/fkm_load_distribution.py"
 
 def variants():
     out = []
+
+    def z_repeat(tree):
+        f = find_func(tree, "DamageCalculatorPRAM._initialize_P_RAM_Z_index")
+        for c in calls_in(f):
+            if call_name(c) == "pd.Series":
+                for k in c.keywords:
+                    if k.arg == "data":
+                        k.value = parse_expr("np.repeat(self._P_RAM_Z.to_numpy(), n_hystereses)")
+                        return True
+        return False
+    out.append(witness("per-point knee values repeated point-major", DC, z_repeat, "R-C10-4"))
+
+    def z_tile(tree):
+        f = find_func(tree, "DamageCalculatorPRAM._initialize_P_RAM_Z_index")
+        for c in calls_in(f):
+            if call_name(c) == "pd.Series":
+                for k in c.keywords:
+                    if k.arg == "data":
+                        k.value = parse_expr("np.tile(self._P_RAM_Z.to_numpy(), n_hystereses)")
+                        return True
+        return False
+    out.append(twin("per-point knee values tiled with np.tile", DC, z_tile))
+
+    def early_bound_run2(tree):
+        f = find_func(tree, "DamageCalculatorPRAM.lifetime_n_cycles")
+        for n in ast.walk(f):
+            if isinstance(n, ast.Compare) and is_self_attr(n.comparators[0], "_n_hystereses"):
+                n.comparators[0].attr = "_n_hystereses_run_2"
+                return True
+        return False
+    out.append(witness("early-failure bound is the pass-2 count", DC, early_bound_run2, "R-C10-5"))
 
     def ungroup_one(tree):
         f = find_func(tree, "P_RAJ._compute_crack_opening_loop")
